@@ -12,6 +12,7 @@
 # See the License for the specific language governing permissions and
 # limitations under the License.
 
+from .node import ConfigNode
 from .composed import ComposedNode
 from ..namespace import namespace
 from ..utils import Bunch
@@ -117,6 +118,13 @@ class ConfigDict(ComposedNode, dict):
 
     @namespace('ayns')
     def on_evaluate_impl(self, path, ctx):
+        if not self.ayns.safe:
+            # keys can be nodes too (e.g., "!eval" written in front of a key) and are evaluated with the mapping:
+            # they belong to it, and are as unsafe as it is
+            for key in self._children.keys():
+                if isinstance(key, ConfigNode):
+                    key._implicit_safe = False
+
         return Bunch((ctx.evaluate_node(key), ctx.evaluate_node(value, path+[key])) for key, value in self.ayns.named_children())
 
     def __repr__(self, simple=False):
